@@ -38,7 +38,7 @@ def _snapshot(obj):
             return {str(k): snap(v, depth + 1) for k, v in sorted(o.items(), key=lambda kv: str(kv[0]))}
         d = getattr(o, "__dict__", None)
         if d is not None:
-            return (type(o).__name__, {k: snap(v, depth + 1) for k, v in sorted(d.items()) if k not in MEMO_FIELDS})
+            return (type(o).__module__ + "." + type(o).__qualname__, {k: snap(v, depth + 1) for k, v in sorted(d.items()) if k not in MEMO_FIELDS})
         return repr(o)
     return json.dumps(snap(obj), sort_keys=True, default=str)
 
@@ -399,8 +399,14 @@ def c18_add(tier, seed):
         p1, p2 = cur.ge_polyhedron, direct.ge_polyhedron
         if p1.tolist() != p2.tolist() or [v.id for v in p1.variables] != [v.id for v in p2.variables]:
             _viol(r, "c18.polyhedron-differs", w)
+        if [v.id for v in cur.leafs()] != [v.id for v in direct.leafs()]:
+            _viol(r, "c18.leafs-differ", w, got=[str(v.id) for v in cur.leafs()], want=[str(v.id) for v in direct.leafs()])
         prio = {rng.choice(items): rng.choice([1, 2, -1])}
         if len(leaves_of(direct)) <= 6:
+            l1 = json.dumps(list(cur.select(prio, solver=dummy_solver, only_leafs=True)), default=str)
+            l2 = json.dumps(list(direct.select(prio, solver=dummy_solver, only_leafs=True)), default=str)
+            if l1 != l2:
+                _viol(r, "c18.solutions-differ", w, prio=prio, only_leafs=True)
             s1 = json.dumps(list(cur.select(prio, solver=dummy_solver)), default=str)
             s2 = json.dumps(list(direct.select(prio, solver=dummy_solver)), default=str)
             if s1 != s2:
@@ -519,6 +525,7 @@ def c17_b64(tier, seed):
                 a_ = json.dumps(list(cfg.select({xs[0]: 1}, solver=dummy_solver)), default=str)
                 b_ = json.dumps(list(c2.select({xs[0]: 1}, solver=dummy_solver)), default=str)
                 same_cfg = (a_ == b_ and c2.to_text() == cfg.to_text() and c2.default_prios == cfg.default_prios
+                            and _snapshot(c2) == _snapshot(cfg)            # classes (module-qualified), defaults, prio tags, flags
                             and c2.ge_polyhedron.tolist() == cfg.ge_polyhedron.tolist()
                             and [v.id for v in c2.ge_polyhedron.variables] == [v.id for v in cfg.ge_polyhedron.variables])
             except BaseException as e:
@@ -594,7 +601,7 @@ def c16_configurator_json(tier, seed):
             _viol(r, "c16.configurator-structure-differs", w, got=c2.to_text(), want=cfg.to_text())
         if cfg.default_prios != c2.default_prios:
             _viol(r, "c16.configurator-default-prios-differ", w)
-        dl = lambda m: sorted((str(x.id), [str(v.id) for v in x.default]) for x in m.flatten() if hasattr(x, "default"))
+        dl = lambda m: sorted((str(x.id), [str(v.id) for v in x.default]) for x in m.flatten() if getattr(x, "default", None))
         if dl(cfg) != dl(c2):
             _viol(r, "c16.configurator-default-lists-differ", w, got=dl(c2), want=dl(cfg))
         if cfg.ge_polyhedron.tolist() != c2.ge_polyhedron.tolist():
